@@ -18,6 +18,21 @@ CONFIG = {
             "consensus is a harness fake over a real dsstate; the monitor is the real pubsubmon fed through LogMetric",
         ],
     },
+    "C04": {
+        "pkg": "c04",
+        "legs": [
+            {"run": "^TestPinset$", "quick": (600, 16), "thorough": (20000, 16)},
+        ],
+        "floors": {"pinset": {"nontrivial": 1000, "repin-identical": 500, "unpin-meta": 200, "update-of-stored": 500, "follower": 500}},
+        "assumptions": [
+            QUIC,
+            "all 5 members are healthy in every case (allocation under unhealthy peers is C03's subject)",
+            "unix-0 expiry and metadata entries with an empty key are not generated (documented as 'unset' / ignored by the tree)",
+            "the update source (pin-update) is not treated as an option whose removal must be stored: PinOptions.Equals documents that it is deliberately ignored",
+            "'identical options' is only asserted with whole-second expiry (the stored form truncates)",
+            "unpinning a shard or cluster-DAG entry directly, and unpinning a meta entry whose cluster DAG is missing, are not specified by the statement: refusal-without-change is required for the former, the latter is not judged",
+        ],
+    },
     "C08": {
         "pkg": "c08",
         "regress": "^TestRegress",
